@@ -15,6 +15,36 @@ CLAIMS = {
   note="Assumed (specs/extern/time.gvc): abstract time (sec, nsec in [0,1e9), wall, zone); time.Unix normalisation, Unix/UnixNano/Nanosecond/In/Format/Parse; go-corelib SmartParse returns an instant in years 0..9999, OverwriteTZ keeps the wall clock, ConvertTZ keeps the instant; strconv.ParseInt/FormatInt inverse; layout parsing and the IANA database are entirely inside those assumptions.",
   technique="contract-based deductive verification: WP/symbolic execution over go/ssa + SMT, integer arithmetic with explicit int64 range obligations",
   design_ref="§6 C19"),
+ "C12": dict(
+  category="proof",
+  text="Deductive proof over the real idr/node.go: AddChild and RemoveAndReleaseTree preserve the quantified link invariant Tree() (every live node is locally consistent with its five neighbours, child and sibling links of live nodes point at live nodes, sibling lists strictly ordered by a ghost position hence acyclic) for all heaps; RemoveAndReleaseTree's whole-view postcondition pins every still-live node (only the at most four links that pointed at n change); reset yields a blank, no-longer-live node with an ID the atomic counter has just issued; CreateNode meets one postcondition on the pooled and the allocating path (blank except Type/Data, not live before, ID never carried by an earlier acquisition, all other nodes untouched, pool invariant kept); sync.Pool.Put's precondition forbids pooling a live, non-blank, already pooled or already-acquired-ID node (no double hand-out). Frame obligations: only AddChild/RemoveAndReleaseTree/reset write link fields, only reset writes IDs. recycle (recursion + sibling loop) is checked in bounded mode only (trees with <= 2 levels of recursion and <= 2 children per node) against the contract RemoveAndReleaseTree is proved from.",
+  note="Assumed: sync.Pool.Get returns New() or a previously Put object not handed out since; atomic.AddInt64 is a linearizable fetch-and-add (each value issued once; a later separate load is not the value issued); recycle's contract beyond the stated bound; that a live node's Parent is live and full acyclicity of parent chains are NOT part of the proved invariant (need an induction the solver cannot do); 'child list lists exactly the attached nodes' follows from the invariant by induction on the ghost order (paper); call sites of AddChild/RemoveAndReleaseTree in the readers are checked under C04/C05/C17 as those functions come under contract; racing acquisitions only through the atomic/pool assumptions.",
+  technique="contract-based deductive verification: quantified heap invariants with ghost state over go/ssa + SMT; SSA frame analysis; bounded symbolic execution for recycle (labelled bounded)",
+  design_ref="§6 C12"),
+ "C10": dict(
+  category="proof",
+  text="Proved: (frame C10_transformFrame, SSA footprint over the reach of ParseNode plus all built-in custom functions) evaluating a record stores into no node, reader, ingester or declaration, so a failing or succeeding transform leaves the reader and tree where they were; ingester.Read evaluates each record with an evaluation context allocated in that call (NewParseCtx returns a fresh context with caching on), returns ErrTransformFailed-class errors for transform failures only through the same path, and releases nothing but its own previous record; every node acquisition gets a newly issued ID (reset), so no cached result can alias a recycled node.",
+  note="The algebraic laws of the statement (concatenation, permutation, replacement) are a paper corollary of these per-call contracts plus C13 and are not machine-checked; XML/JSON record content as a function of its own bytes and javascript state rest on C08/C20; release-before-read ordering inside ingester.Read is visible in the verified text but not expressed as a postcondition.",
+  technique="contract-based deductive verification (SMT) + whole-program SSA write-frame obligation",
+  design_ref="§6 C10"),
+ "C14": dict(
+  category="other",
+  text="Frame proof only: over the 336-function reach of NewTransform/Read/RawRecord (plus reflection callees and callbacks) no store goes into a schema-owned struct except initialising an object the storing function allocated, no package-level variable is assigned, and the address of a package-level variable is passed only to sync/atomic and sync.Pool methods. This decides the sharing discipline the property rests on; it does not explore interleavings.",
+  note="Assumed: thread-safety of sync.Pool, sync/atomic, hashicorp LRU; *goja.Program, *xpath.Expr (cloned per query) and *regexp.Regexp are safe to share; Go memory model for publishing the Schema; one transformctx.Ctx per Transform (NewTransform writes Ctx.InputName/CtxAwareErr). Data races inside dependencies are invisible to this check. Concurrency itself is outside what contract-based sequential verification decides.",
+  technique="contract-style write-frame obligations decided by SSA footprint analysis (no SMT)",
+  design_ref="§6 C14"),
+ "C15": dict(
+  category="other",
+  text="Frame proof only: the hidden inputs (node IDs, random declaration hashes) are read only where cache keys are built, no clock/random/uuid.New call is reachable from Read except the excluded `now`, and map iteration occurs only in two reviewed order-insensitive loops. Together with cache transparency (C13) this makes results a function of (schema, input, externals).",
+  note="Assumed: json.Marshal sorts map keys; MD5/UUIDv3 collision-freeness for 'checksums differ when values differ'; a dependency consulting hidden state (goja Math.random is excluded by the statement) is invisible. Cross-process equality is the paper corollary.",
+  technique="contract-style read-frame obligations decided by SSA footprint analysis (no SMT)",
+  design_ref="§6 C15"),
+ "C09": dict(
+  category="other",
+  text="Narrow frame proof: no repository function reachable from NewTransform/Read invokes Read on an io.Reader; the input flows only into constructors of library readers, so no repository decision depends on chunk boundaries except through a library result.",
+  note="Assumed (and carrying most of the property): bufio, encoding/csv, encoding/xml, encoding/json, x/text charmap decoders, go-corelib BytesReplacingReader/scanner/StripBOM produce output that is a function of the byte content only. Alias validity of buffered lines/segments across source reads is not yet under contract.",
+  technique="contract-style frame obligation decided by SSA call-graph analysis (no SMT)",
+  design_ref="§6 C09"),
 }
 
 NOT_BUILT = "check not built yet in this session (planned, see DESIGN.md §6); not claimed until its obligations discharge on the unchanged tree"
